@@ -170,7 +170,24 @@ impl<'a> Eval<'a> {
                         if let Some((ty, last)) = f.rsplit_once("::") {
                             let tyn = ty.rsplit("::").next().unwrap_or(ty);
                             if last == "try_from" || last == "from" {
-                                return self.eval(args.first().ok_or("arity")?);
+                                let v = self.eval(args.first().ok_or("arity")?)?;
+                                // rasn 0.27: `TryFrom<&str>` of the string types with a multi-octet character width reads the
+                                // UTF-8 bytes of the literal as big-endian code units (BmpString: 2 octets, TeletexString: 4) and
+                                // fails when the byte count is not a multiple of the width — the emitted `.unwrap()` then panics
+                                let width = match tyn {
+                                    "BmpString" => 2,
+                                    "TeletexString" => 4,
+                                    _ => 1,
+                                };
+                                if let (true, AV::Str(text)) = (width > 1 && last == "try_from", &v) {
+                                    let b = text.as_bytes();
+                                    if b.len() % width != 0 {
+                                        return Ok(AV::Str(format!("<panics at run time: {} octets are not a multiple of {width}>", b.len())));
+                                    }
+                                    let units: String = b.chunks(width).map(|c| char::from_u32(c.iter().fold(0u32, |a, x| (a << 8) | *x as u32)).unwrap_or('\u{fffd}')).collect();
+                                    return Ok(AV::Str(units));
+                                }
+                                return Ok(v);
                             }
                             if let Some(it) = self.m.find(tyn) {
                                 match &it.kind {
@@ -334,7 +351,7 @@ fn gen_case(rng: &mut Rng, n: usize) -> Case {
         }
         3 => Case { types: String::new(), ty: "NULL".into(), val: "NULL".into(), expected: AV::Unit, trailing_zeros_insignificant: false, as_default: false, form: "null" },
         4 | 5 => {
-            let kinds = [("IA5String", false), ("VisibleString", false), ("PrintableString", false), ("UTF8String", true), ("BMPString", true), ("NumericString", false), ("UniversalString", true)];
+            let kinds = [("IA5String", false), ("VisibleString", false), ("PrintableString", false), ("UTF8String", true), ("BMPString", true), ("NumericString", false), ("UniversalString", true), ("TeletexString", false)];
             let (k, multi) = *rng.pick(&kinds);
             let len = rng.below(10);
             let alpha: Vec<char> = match k {
@@ -346,7 +363,7 @@ fn gen_case(rng: &mut Rng, n: usize) -> Case {
             let s: String = (0..len).map(|_| *rng.pick(&alpha)).collect();
             // strings that look like numbers or dates are read as time values by the lexer (reported separately): keep a letter in front
             let s = if !s.is_empty() && k != "NumericString" && s.chars().all(|c| c.is_ascii_digit() || c == ' ' || c == '-' || c == ':' || c == '.' || c == '+') { format!("A{s}") } else { s };
-            Case { types: String::new(), ty: k.into(), val: format!("\"{}\"", s.replace('"', "\"\"")), expected: AV::Str(s), trailing_zeros_insignificant: false, as_default: true, form: if multi { "cstring/multibyte-capable" } else { "cstring" } }
+            Case { types: String::new(), ty: k.into(), val: format!("\"{}\"", s.replace('"', "\"\"")), expected: AV::Str(s), trailing_zeros_insignificant: false, as_default: true, form: match k { "BMPString" => "cstring/BMPString", "TeletexString" => "cstring/TeletexString", _ if multi => "cstring/multibyte-capable", _ => "cstring" } }
         }
         6 => {
             let len = rng.below(65);
@@ -485,6 +502,23 @@ fn gen_case(rng: &mut Rng, n: usize) -> Case {
                 as_default: false,
                 form: if k == 1 { "sequence-of/single-element" } else { "sequence-of" },
             }
+        }
+        _ if rng.chance(1, 3) => {
+            // SET value: the named values may be written in any order (X.680 27); components with DEFAULT may be left out
+            let types = t("Tt@ ::= SET { fq@a INTEGER, fq@b BOOLEAN DEFAULT TRUE, fq@c INTEGER DEFAULT 3, fq@d INTEGER }\n");
+            let (a, c, d) = (rng.range(-100, 100) as i128, rng.range(4, 99) as i128, rng.range(100, 200) as i128);
+            let mut parts = vec![t(&format!("fq@a {a}")), t(&format!("fq@d {d}"))];
+            let with_c = rng.chance(2, 3);
+            if with_c {
+                parts.push(t(&format!("fq@c {c}")));
+            }
+            let with_b = rng.chance(1, 2);
+            if with_b {
+                parts.push(t("fq@b FALSE"));
+            }
+            rng.shuffle(&mut parts);
+            let val = format!("{{ {} }}", parts.join(", "));
+            Case { types, ty: t("Tt@"), val, expected: AV::Record(vec![AV::Int(a), AV::Bool(!with_b), AV::Int(if with_c { c } else { 3 }), AV::Int(d)]), trailing_zeros_insignificant: false, as_default: false, form: "set/any-order" }
         }
         _ => {
             // SEQUENCE value with an omitted OPTIONAL
